@@ -44,6 +44,8 @@ type witness struct {
 
 type targetStats struct {
 	QuickEvals     int64            `json:"quick_evaluations"`
+	EncEvals       int64            `json:"text_encoding_family_inputs,omitempty"`
+	BOM            map[string]int64 `json:"inputs_starting_with_bom,omitempty"`
 	Classes        map[string]int64 `json:"outcome_classes"`
 	Skipped        map[string]int64 `json:"skipped,omitempty"`
 	ScryptMetered  int64            `json:"scrypt_unwraps_metered,omitempty"`
@@ -203,6 +205,15 @@ func (p *parent) merge(t *target, j job, e *childEnd, countEvals bool) {
 		if w := p.best[k]; w != nil {
 			w.count += n
 		}
+	}
+	for k, n := range s.BOM {
+		if ts.BOM == nil {
+			ts.BOM = map[string]int64{}
+		}
+		ts.BOM[k] += n
+	}
+	if j.Kind == "enc" && countEvals {
+		ts.EncEvals += s.Evals
 	}
 	ts.ScryptMetered += s.ScryptCalls
 	if s.SlowestUS > ts.SlowestUS {
@@ -478,9 +489,16 @@ func main() {
 			break
 		}
 	}
+	// the text-encodings family, enumerated completely for every target that takes text
+	for _, t := range targets {
+		for off, n := 0, encCount(t); off < n; off += 3000 {
+			units = append(units, unit{t, job{Kind: "enc", From: off, To: min(off+3000, n)}})
+		}
+	}
 	mon.Par(len(units), func(i int) {
 		p.runRange(exe, units[i].t, units[i].j, nil, true)
 	})
+	p.bomGuard()
 	r.Count("quick_inputs", r.Evals())
 	p.keyedGuard()
 	if !p.limitOK {
@@ -648,4 +666,28 @@ func (p *parent) keyedGuard() {
 			}
 		}
 	}
+}
+
+// minBOMInputs: every text-taking target must have run at least this many
+// inputs in each (byte order mark, length parity) cell.
+const minBOMInputs = 60
+
+// bomGuard is the vacuity guard of the text-encodings family.
+func (p *parent) bomGuard() {
+	p.mu.Lock()
+	defer p.mu.Unlock()
+	var total int64
+	for _, t := range targets {
+		if !isTextGrammar(t.grammar) {
+			continue
+		}
+		ts := p.st(t.name)
+		for _, cell := range bomCells {
+			total += ts.BOM[cell]
+			if ts.BOM[cell] < minBOMInputs && len(p.best) == 0 {
+				p.r.Inconclusive("text encodings: target %s ran only %d inputs starting with %s (need %d)", t.name, ts.BOM[cell], cell, minBOMInputs)
+			}
+		}
+	}
+	p.r.Count("inputs_starting_with_utf8_or_utf16_bom", total)
 }
